@@ -32,10 +32,10 @@ func init() {
 	core.Register(&core.Scenario{Prop: "C09", Name: "stream-splits", Weight: 3, Fn: c09Splits})
 }
 
-var c09Mods = []string{"ps", "pe-coff", "msi", "cat", "jar", "apk", "xap", "appx", "cab", "dmg", "xar", "deb", "rpm", "pgp", "appmanifest", "bigjar", "bigapk"}
+var c09Mods = []string{"ps", "pe-coff", "msi", "cat", "jar", "apk", "xap", "appx", "cab", "dmg", "xar", "deb", "rpm", "pgp", "appmanifest", "bigjar", "bigapk", "vsix", "mach-o"}
 
 // modules whose client-side transform is produced by a goroutine of its own
-var pipeTransform = map[string]bool{"msi": true, "jar": true, "apk": true, "xap": true, "appx": true, "dmg": true, "xar": false}
+var pipeTransform = map[string]bool{"msi": true, "jar": true, "apk": true, "xap": true, "appx": true, "dmg": true, "xar": false, "vsix": true, "mach-o": true}
 
 // splitReader hands a stream out in tape-chosen pieces.
 type splitReader struct {
